@@ -62,6 +62,8 @@ func ruleWalkPrologue(c *Ctx) {
 		nFuncs++
 		var bad []string
 		var stack []ast.Node
+		fgp := p.FGOf(fd)
+		head := fgp.LoopHead(loop)
 		ast.Inspect(fd.Body, func(n ast.Node) bool {
 			if n == nil {
 				stack = stack[:len(stack)-1]
@@ -73,7 +75,16 @@ func ruleWalkPrologue(c *Ctx) {
 				return false
 			}
 			rs, ok := n.(*ast.ReturnStmt)
-			if !ok || rs.Pos() >= loop.Pos() {
+			if !ok {
+				return true
+			}
+			// "precedes the walk": reachable from the entry without passing the head of the loop (decided on the flow
+			// graph, not by source position — an expanded helper keeps the positions of where it was written)
+			if rb, _, okw := fgp.Where(rs); okw && head >= 0 {
+				if rb == head || !fgp.ReachWithoutBlock(0, rb, head) {
+					return true
+				}
+			} else if rs.Pos() >= loop.Pos() {
 				return true
 			}
 			nRets++
